@@ -106,8 +106,8 @@ def cases(tier):
                        lazy=True, timeout_ms=60000, allow=('ValueError',), cosim=1))
     cs.append(Case('split/n2', h_split, dict(n=2, splits=((1, 1),)), bounds='n=2 = 1+1, K=2 N=3 D=2', lazy=True, cosim=1))
     cs.append(Case('split/n3', h_split, dict(n=3, splits=((1, 2), (2, 1), (1, 1, 1)), N=2), bounds='n=3 = 1+2 = 2+1 = 1+1+1, K=2 N=2 D=2', lazy=True, cosim=1))
-    cs.append(Case('split/n2_aligner', h_split, dict(n=2, splits=((1, 1),), N=1, lead=(3,), aligner=True, wca=(-3,)),
-                   bounds='n=2 = 1+1 with inline greedy aligner, F=3 K=2 N=1 D=2, weight_constant_axis=(-3,)', lazy=True, cosim=8, max_paths=3000, budget_s=300))
+    cs.append(Case('split/n2_aligner', h_split, dict(n=2, splits=((1, 1),), N=2, lead=(3,), aligner=True, wca=(-3,)),
+                   bounds='n=2 = 1+1 with inline greedy aligner, F=3 K=2 N=2 D=2, weight_constant_axis=(-3,)', lazy=True, cosim=8, max_paths=3000, budget_s=900))
     from harness import c14
     for metric, alg in [('multiply', 'greedy'), ('euclidean', 'optimal')]:
         cs.append(Case('align_pure/dhtv_%s' % metric, c14.h_aligner,
